@@ -4,7 +4,7 @@
    come with the case as tables; canon and the "\n...\n" split are computed by the model
    and must reproduce the library's Bytes and bytes.Split. *)
 From Coq Require Import List String Ascii Bool.
-From Helm Require Import Common.Assoc Misc.Prov.
+From Helm Require Import Common.Assoc Misc.Prov Misc.ProvTrust.
 Import ListNotations.
 Local Open Scope string_scope.
 
@@ -68,11 +68,25 @@ Definition sign_ok (x : sgn) : bool :=
   | _ => false
   end.
 
+(* a Signatory built by hand / NewFromFiles / NewFromKeyring (keys: 0 = A, 1 = B) *)
+Inductive sctor :=
+| SHand (entity : option nat)            (* &Signatory{Entity, KeyRing} *)
+| SFiles (keyfile : option nat)          (* NewFromFiles(keyfile, ring); None = not a key file *)
+| SKeyring (id : string).                (* NewFromKeyring(ring, id) *)
+
+Record scheck := mkSig {
+  g_ctor : sctor;
+  g_ring : option (list (nat * list string));   (* entities of the keyring file in order with their identity names; None = does not load *)
+  g_chk : vcheck;                        (* v_sig_ok = CheckDetachedSignature with the KeyRing ALONE; v_obs = Signatory.Verify; v_obs_vc unused *)
+  g_ctor_err : bool;                     (* observed: the constructor returned an error *)
+  g_entity : option nat }.               (* observed: Signatory.Entity *)
+
 Record case := mkCase {
   k_tab : ptab; k_checks : list vcheck;          (* the signed pair and its archive / name / keyring mutants *)
   k_provs : list (option ptab * vcheck);         (* provenance-file mutants; None = same library results as k_tab *)
-  k_dls : list dcheck;
-  k_signs : list sgn }.
+  k_dls : list (option ptab * dcheck);           (* None = the provenance file served has the library results of k_tab *)
+  k_signs : list sgn;
+  k_sigs : list (option ptab * scheck) }.
 
 Section Run.
   Variable tb : ptab.
@@ -144,6 +158,38 @@ Section Run.
         match m_download (dep_build_strategy f) d with DErr => d_err d | DOk _ => negb (d_err d) end
     end.
 
+  (* signatories: the keyring is (entities of the file, verdict of the real signature check
+     with that keyring alone) *)
+  Definition sring : Type := (list (nat * list string) * bool)%type.
+  Definition s_check (kr : sring) (bytes : string) (sg : unit) : option unit := r_check (snd kr) bytes sg.
+
+  Definition opt_nat_eqb (a b : option nat) : bool :=
+    match a, b with
+    | None, None => true
+    | Some x, Some y => Nat.eqb x y
+    | _, _ => false
+    end.
+
+  Definition m_signatory (g : scheck) : option (signatory sring nat) :=
+    let ringfile := match g_ring g with
+                    | Some ents => Some (ents, v_sig_ok (g_chk g))
+                    | None => None
+                    end in
+    match g_ctor g with
+    | SHand e => match ringfile with Some r => Some (mkSignatory e r) | None => None end
+    | SFiles kf => new_from_files sring nat kf ringfile
+    | SKeyring id => new_from_keyring sring nat fst ringfile id
+    end.
+
+  Definition sig_check_ok (g : scheck) : bool :=
+    let v := g_chk g in
+    match m_signatory g with
+    | None => g_ctor_err g
+    | Some s =>
+        negb (g_ctor_err g) && opt_nat_eqb (s_entity s) (g_entity g)
+        && opt_eqb (res_hash (signatory_verify sring nat unit unit r_decode s_check r_sha r_meta r_sums s "" (v_name v) (v_sha v))) (v_obs v)
+    end.
+
   (* the model's canon / split against the library's Bytes / bytes.Split *)
   Definition tab_ok : bool :=
     match t_decode tb with
@@ -167,8 +213,15 @@ Definition case_ok (c : case) : bool :=
                        | Some tb => tab_ok tb && check_ok tb (snd x)
                        | None => check_ok (k_tab c) (snd x)
                        end) (k_provs c)
-  && forallb (dl_ok (k_tab c)) (k_dls c)
-  && forallb sign_ok (k_signs c).
+  && forallb (fun x => match fst x with
+                       | Some tb => tab_ok tb && dl_ok tb (snd x)
+                       | None => dl_ok (k_tab c) (snd x)
+                       end) (k_dls c)
+  && forallb sign_ok (k_signs c)
+  && forallb (fun x => match fst x with
+                       | Some tb => tab_ok tb && sig_check_ok tb (snd x)
+                       | None => sig_check_ok (k_tab c) (snd x)
+                       end) (k_sigs c).
 
 Fixpoint mismatches_from (i : nat) (cs : list case) : list nat :=
   match cs with
